@@ -93,6 +93,10 @@ class PartialRotaryEmbeddingFusion(pattern.RewriteRuleClassBase):
             and rotary_embedding_attributes["interleaved"].value != 0
         ):
             return check_result.fail("interleaved is not equal to 0.")
+        if "num_heads" not in rotary_embedding_attributes:
+            # ORT requires num_heads once rotary_embedding_dim is specified: take it from the 4D input.
+            if x.shape is None or len(x.shape) != 4 or not isinstance(x.shape[1], int):
+                return check_result.fail("num_heads is not specified and cannot be determined.", x)
         return check_result
 
     def rewrite(self, op, x, end1, x_part_1_rope, **_):
@@ -103,6 +107,8 @@ class PartialRotaryEmbeddingFusion(pattern.RewriteRuleClassBase):
         inputs[0] = x
         attrs = dict(original_node.attributes)
         attrs["rotary_embedding_dim"] = rotary_embedding_dim
+        if "num_heads" not in attrs:
+            attrs["num_heads"] = x.shape[1]
         return op.RotaryEmbedding(
             *inputs,
             **attrs,
